@@ -1,6 +1,7 @@
-import FiberModel.C09.MediaLemmas
+import FiberModel.C09.RawLemmas
 /-
-C09 — property theorems (only). Helper lemmas: SortLemmas, SelectLemmas, ParseLemmas.
+C09 — property theorems (only). Helper lemmas: SortLemmas, SelectLemmas, ParseLemmas, SplitLemmas,
+VisitLemmas, ElemLemmas, RoundTrip, MediaLemmas, RawLemmas.
 
 Quantifiers: every header (`Bytes`, a superset of byte strings), every offer list, every
 acceptability predicate `acc` (Go's `isAccepted` argument), every `ParseFloat` table `tab` and
@@ -86,17 +87,17 @@ def expectedWith (acc : Bytes → Bytes → Params → Bool) (es : List Elem) (o
   | [] => []
   | o0 :: _ => if render es == [] then o0 else select (accS acc) (denote es) offers
 
-/-- **`getOffer_eq_spec`** (header level, full strength outside the two known regions): for EVERY
-    header of the RFC 9110 grammar (`wf`: any ranges, parameters with token or quoted-string values incl.
-    quoted-pairs / commas / semicolons, weights, accept-ext, empty list elements, optional whitespace)
-    that does not use HTAB as whitespace (K1) and has no empty parameter before one that matters (K2),
-    every offer list and every `ParseFloat` table, `getOffer` on the rendered bytes returns the first
-    offer acceptable to the most preferred range of the header's *meaning* (`denote`, read off the syntax
-    tree; ranges with q = 0 removed) under (q desc, specificity desc, #params desc, position asc); an
-    absent header selects the first offer. `hEmpty`: the predicate lets the empty range accept nothing. -/
-theorem getOffer_eq_spec_partial (tab : Bytes → Option Qual) (acc : Bytes → Bytes → Params → Bool)
+/-- **`getOffer_eq_spec`** (header level, full strength): for EVERY header of the RFC 9110 grammar
+    (`wf`: any ranges, parameters with token or quoted-string values incl. quoted-pairs / commas /
+    semicolons, repeated parameter names, weights `q`/`Q`, accept-ext, empty list elements, empty
+    parameters `;;` anywhere, optional whitespace SP / HTAB wherever the grammar allows it), every offer list and every
+    `ParseFloat` table, `getOffer` on the rendered bytes returns the first offer acceptable to the
+    most preferred range of the header's *meaning* (`denote`, read off the syntax tree; ranges with
+    q = 0 removed) under (q desc, specificity desc, #params desc, position asc); an absent header
+    selects the first offer. `hEmpty`: the predicate lets the empty range accept nothing. -/
+theorem getOffer_eq_spec (tab : Bytes → Option Qual) (acc : Bytes → Bytes → Params → Bool)
     (es : List Elem) (offers : List Bytes)
-    (hwf : wf es = true) (hk1 : Known.K1 es = false) (hk2 : Known.K2 es = false)
+    (hwf : wf es = true)
     (hEmpty : ∀ o ∈ offers, ∀ ps, o ≠ [] → acc [] o ps = false) :
     getOffer tab acc (render es) offers = expectedWith acc es offers := by
   unfold expectedWith
@@ -107,9 +108,8 @@ theorem getOffer_eq_spec_partial (tab : Bytes → Option Qual) (acc : Bytes → 
     · simp [hnil, getOffer]
     · have hnil' : (render es == []) = false := by simpa using hnil
       simp only [hnil', Bool.false_eq_true, if_false]
-      have hs := strict_of_wf hwf hk1
-      have hk := noK2_of hk2
-      obtain ⟨hp1, hp2⟩ := parse_render tab es hs hk false 0
+      have hs := strict_of_wf hwf
+      obtain ⟨hp1, hp2⟩ := parse_render tab es hs false 0
       have hfin : ∀ r ∈ parseRanges tab (render es), r.q.isFin = true := by
         intro r hr
         by_cases hsp : r.spec = []
@@ -141,11 +141,35 @@ theorem acceptsOffer_empty (o : Bytes) (ps : Params) (ho : o ≠ []) : acceptsOf
   | cons c cs => simp [acceptsOffer, hasPrefix, List.isPrefixOf]
 
 /-- `AcceptsCharsets / AcceptsEncodings / AcceptsLanguages` = the specification's `expected` -/
-theorem accepts_token_eq_spec_partial (tab : Bytes → Option Qual) (mime : Bytes → Bytes) (es : List Elem) (offers : List Bytes)
-    (hwf : wf es = true) (hk1 : Known.K1 es = false) (hk2 : Known.K2 es = false) :
+theorem accepts_token_eq_spec (tab : Bytes → Option Qual) (mime : Bytes → Bytes) (es : List Elem) (offers : List Bytes)
+    (hwf : wf es = true) :
     getOffer tab acceptsOffer (render es) offers = expected mime .token es offers := by
-  rw [getOffer_eq_spec_partial tab acceptsOffer es offers hwf hk1 hk2 (fun o _ ps ho => acceptsOffer_empty o ps ho)]
+  rw [getOffer_eq_spec tab acceptsOffer es offers hwf (fun o _ ps ho => acceptsOffer_empty o ps ho)]
   rfl
+
+/-- acceptability for `Accept-Charset / -Encoding / -Language` as fiber defines it: the range ends in
+    `*` (the wildcard `*`, but also `fr-*`), or the offer is a prefix of the range, compared byte by
+    byte (case-sensitive). So the language range `en-US` accepts the offer `en`; the range `en` does
+    not accept the offer `en-US`; `UTF-8` does not accept `utf-8`. The parameters of the range play no
+    part. -/
+theorem acceptsOffer_iff (spec offer : Bytes) (ps : Params) :
+    acceptsOffer spec offer ps = true ↔ (spec.getLast? = some 42 ∨ ∃ t, offer ++ t = spec) := by
+  unfold acceptsOffer hasPrefix
+  simp only [Bool.or_eq_true, beq_iff_eq, List.isPrefixOf_iff_prefix]
+  exact Iff.rfl
+
+example : acceptsOffer (b "en-US") (b "en") [] = true ∧ acceptsOffer (b "en") (b "en-US") [] = false ∧
+    acceptsOffer (b "UTF-8") (b "utf-8") [] = false ∧ acceptsOffer (b "*") (b "gzip") [] = true ∧
+    acceptsOffer (b "fr-*") (b "de") [] = true ∧ acceptsOffer (b "gzip") (b "gzip") [(b "a", b "1")] = true := by decide
+
+-- `Accept-Language: en-US , de;<HT>q=0.8, *;;q=0.1`: `da` is acceptable to the wildcard only, `de` to the
+-- second range, `en` to the first; position in the offer list matters only within one range
+example :
+    let h := b "en-US , de;\tq=0.8, *;;q=0.1"
+    getOffer (fun _ => none) acceptsOffer h [b "da", b "de", b "en"] = b "en" ∧
+    getOffer (fun _ => none) acceptsOffer h [b "da", b "de"] = b "de" ∧
+    getOffer (fun _ => none) acceptsOffer h [b "da", b "fr"] = b "da" ∧
+    getOffer (fun _ => none) acceptsOffer (b "en;q=0, *;q=0") [b "da", b "en"] = [] := by decide
 
 theorem firstAcceptable_congr (acc1 acc2 : SRange → Bytes → Bool) (offers : List Bytes)
     (h : ∀ r o, o ∈ offers → o ≠ [] → acc1 r o = acc2 r o) (r : SRange) :
@@ -170,11 +194,11 @@ theorem select_congr (acc1 acc2 : SRange → Bytes → Bool) (rs : List SRange) 
 
 /-- `Accepts` (and `Format`'s negotiation) = the specification's `expected`, on offers whose media
     type is not empty / does not start with `/` and whose parameter names are not repeated -/
-theorem accepts_media_eq_spec_partial (tab : Bytes → Option Qual) (mime : Bytes → Bytes) (es : List Elem) (offers : List Bytes)
-    (hwf : wf es = true) (hk1 : Known.K1 es = false) (hk2 : Known.K2 es = false)
+theorem accepts_media_eq_spec (tab : Bytes → Option Qual) (mime : Bytes → Bytes) (es : List Elem) (offers : List Bytes)
+    (hwf : wf es = true)
     (hoff : ∀ o ∈ offers, o ≠ [] → offerSane mime o = true ∧ offerParamsDistinct o) :
     getOffer tab (acceptsOfferType mime) (render es) offers = expected mime .accept es offers := by
-  rw [getOffer_eq_spec_partial tab (acceptsOfferType mime) es offers hwf hk1 hk2
+  rw [getOffer_eq_spec tab (acceptsOfferType mime) es offers hwf
     (fun o ho ps hne => acceptsOfferType_empty mime o ps (hoff o ho hne).1)]
   unfold expectedWith expected
   cases offers with
@@ -185,32 +209,42 @@ theorem accepts_media_eq_spec_partial (tab : Bytes → Option Qual) (mime : Byte
     · rfl
     · exact select_congr _ _ _ _ (fun r o ho hne => acceptsOfferType_eq_accMedia mime r o (hoff o ho hne).2)
 
--- the witnesses of the two known findings: the full statement fails there
-theorem getOffer_eq_spec_witness_K1 :
-    ¬ (getOffer (fun _ => none) (acceptsOfferType fun _ => [])
+-- the two former known findings (K1 HTAB as optional whitespace, K2 empty parameter), repaired in
+-- /repo (F4, F5): their witnesses now meet the statement
+example :
+    getOffer (fun _ => none) (acceptsOfferType fun _ => [])
         (render [⟨[], b "text/html", [⟨[], [9], b "q", false, b "0"⟩], []⟩, ⟨[32], b "text/plain", [], []⟩])
-        [b "text/html", b "text/plain"] =
-       expectedWith (acceptsOfferType fun _ => [])
-        [⟨[], b "text/html", [⟨[], [9], b "q", false, b "0"⟩], []⟩, ⟨[32], b "text/plain", [], []⟩]
-        [b "text/html", b "text/plain"]) := by decide
+        [b "text/html", b "text/plain"] = b "text/plain" := by decide
 
-theorem getOffer_eq_spec_witness_K2 :
-    ¬ (getOffer (fun _ => none) (acceptsOfferType fun _ => [])
+example :
+    getOffer (fun _ => none) (acceptsOfferType fun _ => [])
         (render [⟨[], b "text/html", [⟨[], [], [], false, []⟩, ⟨[], [], b "q", false, b "0"⟩], []⟩, ⟨[32], b "text/plain", [], []⟩])
-        [b "text/html", b "text/plain"] =
-       expectedWith (acceptsOfferType fun _ => [])
-        [⟨[], b "text/html", [⟨[], [], [], false, []⟩, ⟨[], [], b "q", false, b "0"⟩], []⟩, ⟨[32], b "text/plain", [], []⟩]
-        [b "text/html", b "text/plain"]) := by decide
+        [b "text/html", b "text/plain"] = b "text/plain" := by decide
 
--- non-vacuity of `getOffer_eq_spec_partial`: `text/html;q=0 , text/plain;a="x\\"y", */*;q=0.1` is in the region;
+-- non-vacuity of `getOffer_eq_spec`: `text/html<HT>;;<HT>q=0 , text/plain; ;a="x\\"y", */*;q=0.1` is in the
+-- grammar (HTAB as OWS, empty parameters before the weight and before a media parameter, a quoted-pair);
 -- text/html is refused by its own range but `*/*` accepts it (the property's rule), image/png comes second
 example :
-    let es : List Elem := [⟨[], b "text/html", [⟨[], [], b "q", false, b "0"⟩], [32]⟩,
-      ⟨[32], b "text/plain", [⟨[], [], b "a", true, [120, 92, 34, 121]⟩], []⟩,
+    let es : List Elem := [⟨[], b "text/html", [⟨[9], [], [], false, []⟩, ⟨[], [9], b "q", false, b "0"⟩], [32]⟩,
+      ⟨[32], b "text/plain", [⟨[], [32], [], false, []⟩, ⟨[], [], b "a", true, [120, 92, 34, 121]⟩], []⟩,
       ⟨[32], b "*/*", [⟨[], [], b "q", false, b "0.1"⟩], []⟩]
-    wf es = true ∧ Known.K1 es = false ∧ Known.K2 es = false ∧
+    wf es = true ∧
     getOffer (fun _ => none) (acceptsOfferType fun _ => []) (render es) [b "image/png", b "text/html"] = b "image/png" ∧
-    getOffer (fun _ => none) (acceptsOfferType fun _ => []) (render (es.take 2)) [b "text/html", b "image/png"] = [] := by
+    getOffer (fun _ => none) (acceptsOfferType fun _ => []) (render (es.take 2)) [b "text/html", b "image/png"] = [] ∧
+    getOffer (fun _ => none) (acceptsOfferType fun _ => []) (render (es.take 2)) [b "text/plain;a=\"x\\\"y\""] =
+      b "text/plain;a=\"x\\\"y\"" := by
+  decide
+
+-- repeated parameter names are in the grammar: the last value counts, once. `text/plain;a=1;A=2` is the
+-- range `text/plain` with the one parameter a=2: it accepts `text/plain;a=2`, not `text/plain;a=1`, and
+-- ties with `text/html;b=1` on the number of parameters (so position decides)
+example :
+    let es : List Elem := [⟨[], b "text/plain", [⟨[], [], b "a", false, b "1"⟩, ⟨[], [], b "A", false, b "2"⟩], []⟩,
+      ⟨[], b "text/html", [⟨[], [], b "b", false, b "1"⟩], []⟩]
+    wf es = true ∧ (denote es).map (·.params) = [[(b "a", b "2")], [(b "b", b "1")]] ∧
+    getOffer (fun _ => none) (acceptsOfferType fun _ => []) (render es) [b "text/plain;a=1"] = [] ∧
+    getOffer (fun _ => none) (acceptsOfferType fun _ => []) (render es) [b "text/html;b=1", b "text/plain;a=2"] =
+      b "text/plain;a=2" := by
   decide
 
 theorem best_mem {l : List SRange} {m : SRange} (h : best l = some m) : m ∈ l := by
@@ -267,17 +301,17 @@ theorem denoteFrom_nonzero (es : List Elem) (n : Nat) : ∀ s ∈ denoteFrom es 
           rw [← hs]; simpa using hz
       · exact ih _ s h
 
-/-- **`q0_never_selected`** (header level): on a header of the grammar (outside K1/K2), whatever
+/-- **`q0_never_selected`** (header level): on every header of the grammar, whatever
     `getOffer` selects is an offer accepted by a range of the header whose weight is not 0 — a
     range sent with `q=0` (in any of the spellings `0`, `0.0`, `0.00`, `0.000`, with `q`/`Q`, with any
     optional whitespace around `;` and before the comma) never selects an offer. -/
-theorem q0_never_selected_partial (tab : Bytes → Option Qual) (acc : Bytes → Bytes → Params → Bool)
+theorem q0_never_selected (tab : Bytes → Option Qual) (acc : Bytes → Bytes → Params → Bool)
     (es : List Elem) (offers : List Bytes) (o : Bytes)
-    (hwf : wf es = true) (hk1 : Known.K1 es = false) (hk2 : Known.K2 es = false)
+    (hwf : wf es = true)
     (hEmpty : ∀ o ∈ offers, ∀ ps, o ≠ [] → acc [] o ps = false)
     (hne : render es ≠ []) (ho : o ≠ []) (h : getOffer tab acc (render es) offers = o) :
     ∃ r ∈ denote es, r.q.isZero = false ∧ o ∈ offers ∧ acc r.spec o r.params = true := by
-  rw [getOffer_eq_spec_partial tab acc es offers hwf hk1 hk2 hEmpty] at h
+  rw [getOffer_eq_spec tab acc es offers hwf hEmpty] at h
   unfold expectedWith at h
   cases offers with
   | nil => exact absurd h.symm ho
@@ -316,6 +350,85 @@ theorem result_is_offer_or_empty (tab : Bytes → Option Qual) (acc : Bytes → 
 theorem q0_never_candidate (tab : Bytes → Option Qual) (header : Bytes) :
     ∀ r ∈ parseRanges tab header, r.q.isZero = false :=
   fun r hr => ((parseRangesFrom_props tab (mediaRanges header) 0).1 r hr).2.2.1
+
+/-! ### arbitrary header bytes, arbitrary `ParseFloat` verdicts (NaN and Inf included) -/
+
+/-- whatever `getOffer` returns for a present header — ANY bytes, ANY `ParseFloat` table — was
+    accepted by a range that was parsed from a list element of the header and whose weight is not 0 -/
+theorem result_accepted_by_live_range (tab : Bytes → Option Qual) (acc : Bytes → Bytes → Params → Bool)
+    (header : Bytes) (offers : List Bytes) (o : Bytes) (hh : header ≠ []) (ho : o ≠ [])
+    (h : getOffer tab acc header offers = o) :
+    ∃ r ∈ parseRanges tab header, (∃ a ∈ mediaRanges header, ∃ n, parseElem tab a n = some r) ∧
+      r.q.isZero = false ∧ o ∈ offers ∧ acc r.spec o r.params = true := by
+  cases offers with
+  | nil => exact absurd (by simpa [getOffer] using h.symm) ho
+  | cons o0 os =>
+    rw [getOffer_eq_findOffer tab acc header o0 os hh] at h
+    obtain ⟨r, hr, hmem, hacc⟩ := findOffer_sound acc _ _ o h ho
+    have hr' := mem_candidates.1 hr
+    exact ⟨r, hr', mem_parseRangesFrom hr', q0_never_candidate tab header r hr', hmem, hacc⟩
+
+/-- **an offer matched only by ranges with weight 0 is never returned** — any bytes, any table: if
+    every list element of the header either carries the weight 0 (`parseElem = none`) or does not accept
+    the offer `o`, then `getOffer` does not return `o` -/
+theorem offer_matched_only_by_q0_never_returned (tab : Bytes → Option Qual) (acc : Bytes → Bytes → Params → Bool)
+    (header : Bytes) (offers : List Bytes) (o : Bytes) (hh : header ≠ []) (ho : o ≠ [])
+    (hq : ∀ a ∈ mediaRanges header, ∀ n r, parseElem tab a n = some r → acc r.spec o r.params = false) :
+    getOffer tab acc header offers ≠ o := by
+  intro h
+  obtain ⟨r, _, ⟨a, ha, n, hp⟩, _, _, hacc⟩ := result_accepted_by_live_range tab acc header offers o hh ho h
+  rw [hq a ha n r hp] at hacc
+  cases hacc
+
+-- non-vacuity: the only range that accepts text/html carries q=0 (spelled `Q=0.000`, after an empty
+-- parameter and a HTAB); raw bytes follow that are not in the grammar
+example : getOffer (fun _ => none) (acceptsOfferType fun _ => []) (b "text/html;;\tQ=0.000, text/plain;q=\"x, =;;")
+    [b "text/html", b "text/plain"] = b "text/plain" := by decide
+
+/-- completeness of the search — any bytes, any table: if some parsed range (weight not 0) accepts some
+    non-empty offer, `getOffer` selects an offer (it never answers "nothing acceptable" wrongly) -/
+theorem some_offer_when_a_live_range_accepts (tab : Bytes → Option Qual) (acc : Bytes → Bytes → Params → Bool)
+    (header : Bytes) (offers : List Bytes) (hh : header ≠ [])
+    (h : ∃ r ∈ parseRanges tab header, ∃ o ∈ offers, o ≠ [] ∧ acc r.spec o r.params = true) :
+    getOffer tab acc header offers ≠ [] := by
+  cases offers with
+  | nil => obtain ⟨_, _, o, ho, _⟩ := h; simp at ho
+  | cons o0 os =>
+    rw [getOffer_eq_findOffer tab acc header o0 os hh]
+    apply findOffer_complete
+    obtain ⟨r, hr, rest⟩ := h
+    exact ⟨r, mem_candidates.2 hr, rest⟩
+
+/-- **monotonicity in the weight-0 ranges** — any bytes, any table (the sort need not even produce a
+    sorted list when NaN is around): the result depends only on the sequence of list elements that do
+    not carry the weight 0. Two present headers whose list elements agree after the weight-0 ones are
+    removed select the same offer; so removing (or adding) a range with q=0 anywhere never changes the
+    result. -/
+theorem getOffer_ignores_q0_elements (tab : Bytes → Option Qual) (acc : Bytes → Bytes → Params → Bool)
+    (h h' : Bytes) (offers : List Bytes) (hh : h ≠ []) (hh' : h' ≠ [])
+    (heq : (mediaRanges h).filter (live tab) = (mediaRanges h').filter (live tab)) :
+    getOffer tab acc h offers = getOffer tab acc h' offers := by
+  cases offers with
+  | nil => simp [getOffer]
+  | cons o0 os =>
+    rw [getOffer_eq_findOffer tab acc h o0 os hh, getOffer_eq_findOffer tab acc h' o0 os hh',
+      candidates_eq_sorted, candidates_eq_sorted]
+    unfold parseRanges
+    rw [findOffer_sorted_filter_live tab acc (mediaRanges h), findOffer_sorted_filter_live tab acc (mediaRanges h'), heq]
+
+/-- byte-level instance: a list element with weight 0 in front of a present header is irrelevant.
+    `balanced e`: `e` does not start with optional whitespace, its quoted-strings are closed and it has
+    no comma outside them (so `forEachMediaRange` cuts right behind it) -/
+theorem q0_range_in_front_irrelevant (tab : Bytes → Option Qual) (acc : Bytes → Bytes → Params → Bool)
+    (e h : Bytes) (offers : List Bytes) (he : balanced e = true) (hq : live tab e = false) (hh : h ≠ []) :
+    getOffer tab acc (e ++ 44 :: h) offers = getOffer tab acc h offers := by
+  apply getOffer_ignores_q0_elements tab acc _ _ offers (by simp) hh
+  rw [mediaRanges_cons e h he]
+  simp [hq]
+
+-- non-vacuity: `text/html;a="x,y";q=0` is balanced and carries the weight 0
+example : balanced (b "text/html;a=\"x,y\";q=0") = true ∧ live (fun _ => none) (b "text/html;a=\"x,y\";q=0") = false := by
+  decide
 
 /-- an absent (or empty) header selects the first offer -/
 theorem absent_header_first_offer (tab : Bytes → Option Qual) (acc : Bytes → Bytes → Params → Bool)
@@ -401,15 +514,55 @@ theorem format_406_no_handler (tab : Bytes → Option Qual) (mime : Bytes → By
     all_goals first | (simp at h; done) | skip
     all_goals (repeat' split) <;> simp_all
 
+/-- `Format` for ARBITRARY header bytes and tables, at least one handler: it never reports an error, and
+    either answers 406 without running a handler, or runs exactly the handler with a listed index and
+    answers 200 -/
+theorem format_runs_listed_handler_or_406 (tab : Bytes → Option Qual) (mime : Bytes → Bytes) (header : Bytes)
+    (types : List Bytes) (hne : types ≠ []) :
+    (format tab mime header types).err = false ∧
+    (((format tab mime header types).status = 406 ∧ (format tab mime header types).handler = none) ∨
+     ((format tab mime header types).status = 200 ∧
+        ∃ i, (format tab mime header types).handler = some i ∧ i < types.length)) := by
+  cases types with
+  | nil => exact absurd rfl hne
+  | cons t0 ts =>
+    unfold format
+    simp only
+    by_cases hh : header = []
+    · simp [hh]
+    · simp only [beq_iff_eq, hh, if_false]
+      by_cases ha : getOffer tab (acceptsOfferType mime) header (List.filter (· != sDefault) (t0 :: ts)) = []
+      · simp only [ha, if_true]
+        cases hl : lastIndexOf (t0 :: ts) sDefault with
+        | none => simp
+        | some i =>
+          have hg := lastIndexOf_get hl
+          have hlt : i < (t0 :: ts).length := (List.getElem?_eq_some_iff.1 hg).1
+          exact ⟨rfl, Or.inr ⟨rfl, i, rfl, hlt⟩⟩
+      · simp only [ha, if_false]
+        have hmem : getOffer tab (acceptsOfferType mime) header (List.filter (· != sDefault) (t0 :: ts)) ∈ t0 :: ts := by
+          rcases result_is_offer_or_empty tab (acceptsOfferType mime) header (List.filter (· != sDefault) (t0 :: ts)) with h | h
+          · exact absurd h ha
+          · exact (List.mem_filter.1 h).1
+        cases hf : List.findIdx? (· == getOffer tab (acceptsOfferType mime) header (List.filter (· != sDefault) (t0 :: ts))) (t0 :: ts) with
+        | none =>
+          exfalso
+          rw [List.findIdx?_eq_none_iff] at hf
+          have := hf _ hmem
+          simp at this
+        | some i =>
+          obtain ⟨hlt, _, _⟩ := List.findIdx?_eq_some_iff_getElem.1 hf
+          exact ⟨rfl, Or.inr ⟨rfl, i, rfl, hlt⟩⟩
+
 /-- `Format` on a header of the grammar dispatches as the property demands: the handler whose media
     type is the negotiated one (and that Content-Type), else a "default" handler, else 406 -/
-theorem format_meets_spec_partial (tab : Bytes → Option Qual) (mime : Bytes → Bytes) (es : List Elem) (types : List Bytes)
-    (hwf : wf es = true) (hk1 : Known.K1 es = false) (hk2 : Known.K2 es = false)
+theorem format_meets_spec (tab : Bytes → Option Qual) (mime : Bytes → Bytes) (es : List Elem) (types : List Bytes)
+    (hwf : wf es = true)
     (hoff : ∀ o ∈ types, o ≠ [] → offerSane mime o = true ∧ offerParamsDistinct o) :
     specViolationFormat mime (some es) (render es) types (some (format tab mime (render es) types)) = none := by
   have hoff' : ∀ o ∈ types.filter (· != sDefault), o ≠ [] → offerSane mime o = true ∧ offerParamsDistinct o :=
     fun o ho hne => hoff o (List.mem_filter.1 ho).1 hne
-  have hsel := accepts_media_eq_spec_partial tab mime es (types.filter (· != sDefault)) hwf hk1 hk2 hoff'
+  have hsel := accepts_media_eq_spec tab mime es (types.filter (· != sDefault)) hwf hoff'
   unfold specViolationFormat format
   cases types with
   | nil => simp
